@@ -185,6 +185,13 @@ func (m *memFS) WriteHeader(hdr tar.Header, tfs fs.FS, pkg *apk.Package) (bool, 
 	return true, nil
 }
 
+// isDotName reports whether base, the filepath.Base of a path, names an existing directory (the
+// directory itself, its parent, or the root) rather than an entry that could be created in it.
+// Path components are looked up literally, so such a base must never become the name of a child.
+func isDotName(base string) bool {
+	return base == "." || base == ".." || base == pathSep
+}
+
 // getNode returns the node for the given path. If the path is not found, it
 // returns an error.
 func (m *memFS) getNode(path string) (*node, error) {
@@ -260,7 +267,7 @@ func (m *memFS) Mkdir(path string, perms fs.FileMode) error {
 	// see if it exists
 	anode.mu.Lock()
 	defer anode.mu.Unlock()
-	if base := filepath.Base(path); base == "." || base == ".." || base == pathSep {
+	if isDotName(filepath.Base(path)) {
 		// the directory itself, its parent, or the root: they exist, and must not become literal names
 		return fs.ErrExist
 	}
@@ -393,6 +400,11 @@ func (m *memFS) openFile(name string, flag int, perm fs.FileMode, linkCount int)
 	}
 	if flag&os.O_CREATE != 0 {
 		if !ok {
+			if isDotName(base) {
+				// ".", ".." and "/" name directories, not a file that could be created
+				parentAnode.mu.Unlock()
+				return nil, fmt.Errorf("is a directory")
+			}
 			// create the file
 			anode = &node{
 				name:      base,
@@ -466,6 +478,10 @@ func (m *memFS) writeHeader(name string, te tarEntry) (bool, error) {
 	defer parentAnode.mu.Unlock()
 	existing, ok := parentAnode.children[base]
 	if !ok {
+		if isDotName(base) {
+			// an entry named ".", "a/.." or "/" is not a file or link that could be entered into a directory
+			return false, &fs.PathError{Op: "writeheader", Path: name, Err: fs.ErrInvalid}
+		}
 		// create the file
 		anode := &node{
 			name:       base,
@@ -613,6 +629,9 @@ func (m *memFS) Mknod(path string, mode uint32, dev int) error {
 	}
 	anode.mu.Lock()
 	defer anode.mu.Unlock()
+	if isDotName(base) {
+		return fs.ErrExist
+	}
 	if _, ok := anode.children[base]; ok {
 		return fs.ErrExist
 	}
@@ -693,6 +712,9 @@ func (m *memFS) Symlink(oldname, newname string) error {
 	}
 	anode.mu.Lock()
 	defer anode.mu.Unlock()
+	if isDotName(base) {
+		return fs.ErrExist
+	}
 	if _, ok := anode.children[base]; ok {
 		return fs.ErrExist
 	}
@@ -723,6 +745,9 @@ func (m *memFS) link(oldname, newname string, hdr *tar.Header) error {
 	}
 	anode.mu.Lock()
 	defer anode.mu.Unlock()
+	if isDotName(base) {
+		return fs.ErrExist
+	}
 	if _, ok := anode.children[base]; ok {
 		return fs.ErrExist
 	}
